@@ -676,6 +676,13 @@ def c07_families(rng, tier):
         fam("seeded_pairs", rnd, "seeded pairs: both valid / mixed / both arbitrary u16, some equal", categories=cats, pinned=True),
         fam("seeded_triples", tri, "seeded triples (boundary pool / three invalid / three close valid / mixed with repeats / arbitrary): "
             "a <= b and b <= c imply a <= c; cmp(a,b) = Equal implies cmp(a,c) = cmp(b,c)", pinned=True),
+        fam("hrkey_projection", [l.replace("hrcmpp", "hrkey", 1) for l in pairs[:2000] + rnd[:2000]],
+            "the projection the all-pairs sweep uses, on model and implementation", pinned=True),
+        fam_sweep("all_value_pairs", "hrkey", 2, 0, "1 1 1", "C07_order + C07_eq + C07_operators + C07_antisymmetric",
+                  "ALL 65,536 x 65,536 ordered pairs of converted values%s: cmp is what the property fixes (lower valid value Greater, "
+                  "invalid below valid, two invalid ranks Equal iff same value and antisymmetric); ==, !=, partial_cmp, <, <=, >, >= agree "
+                  "with cmp" % ("" if tier == "thorough" else " (1 of every 64, seeded offset)"),
+                  stride=1 if tier == "thorough" else 64, offset=rng.below(64), alphabet="u16_ordered"),
         fam("invalid_order_direction", direction, "cmp itself on pairs of invalid values (BEYOND the property, which does not fix the order among "
             "invalid ranks: records whether the model's choice, higher value sorts lower, is still the code's)", beyond=True),
     ]
